@@ -2,7 +2,7 @@
    Model/C30_Text.v: the string escaper of the decompiler (`escape`, `esc_char`, `hex4`) and the string
    lexer of the compiler (`lex_string`, `hex4val`).  Strings are lists of code points; a Rust `String`
    holds exactly the lists of Unicode scalar values (`is_scalar`). *)
-From Coq Require Import List NArith Bool.
+From Coq Require Import List NArith ZArith Bool.
 Import ListNotations.
 Require Import RV.Model.C30_Text RV.Proof.C30_Text RV.Model.C31_Lexer RV.Model.C30_Value RV.Proof.C30_Value.
 Open Scope N_scope.
@@ -40,6 +40,20 @@ Theorem C30_value_roundtrip_in_context : forall v, wf v -> forall fuel d rest,
   (List.length (print_value v) + 1 <= fuel)%nat -> d + vdepth v <= PARSER_MAX_DEPTH ->
   parse_value fuel d (print_value v ++ rest) = POk (ast_of v) rest.
 Proof. exact value_roundtrip. Qed.
+(* KNOWN FINDING (class value-depth-21): the depth limit of the parser (20) is lower than what the rest
+   of the tool chain accepts — a call argument nested exactly 21 deep is manifest-encodable as part of
+   an instruction list (3 + 21 = 24 = MANIFEST_SBOR_V1_MAX_DEPTH) and passes static validation, the
+   decompiler prints it, and the printed text is rejected by the compiler with MaxDepthExceeded.  The
+   faithful model shows it; C30_value_roundtrip above is the statement outside the class (depth <= 20).
+   Such a value cannot occur in a notarized transaction payload (the payload depth limit leaves at most
+   20 levels), so the decompiler's documented contract is not violated; recorded, not repaired. *)
+Theorem C30_value_roundtrip_depth21_refuted : exists v, wf v /\ vdepth v = 21 /\
+  parse_tokens (print_value v) = PErr PMaxDepth.
+Proof.
+  exists (N.iter 20 (fun x => MTuple [x]) (MInt false 8 (Z.of_N 7))).
+  split; [vm_compute; tauto|]. split; vm_compute; reflexivity.
+Qed.
+
 (* NOT proved (correspondence + round-trip oracle only): that lexing the printed TEXT gives
    `print_value v` (number / identifier printing), and the generator step ast -> ManifestValue
    (type checks, bech32 / decimal / id parsing of the leaf strings, name resolution). *)
@@ -71,3 +85,4 @@ Print Assumptions C30_string_roundtrip_in_context.
 Print Assumptions C30_escape_char_roundtrip.
 Print Assumptions C30_value_roundtrip.
 Print Assumptions C30_value_roundtrip_in_context.
+Print Assumptions C30_value_roundtrip_depth21_refuted.
